@@ -185,7 +185,7 @@ func genFsDownload() {
 	// the copy statement: if _, err := io.CopyN(dstFile, fileReader, MaxUnpackSize); err != nil { if errors.Is(err, io.EOF) { return nil }; return err }
 	var cpn *ast.IfStmt
 	for _, st := range cz.Body.List {
-		if is, ok := st.(*ast.IfStmt); ok && is.Init != nil && strings.Contains(exprString(fset2, is.Init.(*ast.AssignStmt).Rhs[0]), "io.CopyN") {
+		if is, ok := st.(*ast.IfStmt); ok && is.Init != nil && strings.Contains(exprString(fset2, is.Init.(*ast.AssignStmt).Rhs[0]), "io.CopyN(dstFile") {
 			if cpn != nil {
 				die("fsdownload: copyFromZipArchive: more than one io.CopyN")
 			}
@@ -213,6 +213,40 @@ func genFsDownload() {
 	}
 	sb.WriteString("/-- updater/unpacking.go: `const MaxUnpackSize`; copyFromZipArchive copies at most this many bytes of a member\n    (io.CopyN) and accepts exactly the error io.EOF. -/\n")
 	sb.WriteString(fmt.Sprintf("def maxUnpackSize : Nat := %d\n\n", max))
+	// what follows the io.CopyN statement: either `return nil` at once (a member larger than the limit is cut and
+	// accepted), or first the check that the member ends at the limit
+	var tail []ast.Stmt
+	for i, st := range cz.Body.List {
+		if st == ast.Stmt(cpn) {
+			tail = cz.Body.List[i+1:]
+		}
+	}
+	isReturnNil := func(st ast.Stmt) bool {
+		r, ok := st.(*ast.ReturnStmt)
+		return ok && len(r.Results) == 1 && exprString(fset2, r.Results[0]) == "nil"
+	}
+	limitChecked := false
+	switch {
+	case len(tail) == 1 && isReturnNil(tail[0]):
+	case len(tail) == 2 && isReturnNil(tail[1]):
+		chk, ok := tail[0].(*ast.IfStmt)
+		if !ok || chk.Init == nil || exprString(fset2, chk.Init.(*ast.AssignStmt).Rhs[0]) != "io.CopyN(io.Discard, fileReader, 1)" ||
+			exprString(fset2, chk.Init.(*ast.AssignStmt).Lhs[0]) != "n" || exprString(fset2, chk.Cond) != "n > 0" || !endsWithErrorReturn(chk.Body) {
+			die("fsdownload: copyFromZipArchive: unexpected statement after io.CopyN (expected `if n, err := io.CopyN(io.Discard, fileReader, 1); n > 0 { return error }`)")
+		}
+		el, ok := chk.Else.(*ast.IfStmt)
+		if !ok || el.Init != nil || el.Else != nil || exprString(fset2, el.Cond) != "!errors.Is(err, io.EOF)" || len(el.Body.List) != 1 {
+			die("fsdownload: copyFromZipArchive: the limit check must end with `else if !errors.Is(err, io.EOF) { return err }`")
+		}
+		if r, ok := el.Body.List[0].(*ast.ReturnStmt); !ok || len(r.Results) != 1 || exprString(fset2, r.Results[0]) != "err" {
+			die("fsdownload: copyFromZipArchive: the limit check must return the read error")
+		}
+		limitChecked = true
+	default:
+		die("fsdownload: copyFromZipArchive: unexpected statements after io.CopyN")
+	}
+	sb.WriteString("/-- copyFromZipArchive: after MaxUnpackSize bytes were copied without error the code reads on and fails if the\n    member has more (true), or returns nil at once (false: a larger member is cut and accepted). -/\n")
+	sb.WriteString(fmt.Sprintf("def zipLimitChecked : Bool := %v\n\n", limitChecked))
 	sb.WriteString("end PB.Gen.FsDownload\n")
 	write("FsDownload.lean", sb.String())
 }
